@@ -518,6 +518,12 @@ impl Drop for Driver {
                 key => {
                     #[cfg(compio_verif)]
                     compio_log::verif::point("iour.drop.cqe", key, more(entry.flags()) as u64);
+                    // A completion flagged `MORE` (multishot, zero-copy) only borrows the key:
+                    // the kernel keeps its reference until the final completion, so the key
+                    // stays in `in_flight` and is released after the ring is closed.
+                    if more(entry.flags()) {
+                        continue;
+                    }
                     self.in_flight.remove(&(key as usize));
                     drop(unsafe { ErasedKey::from_raw(key as _) });
                 }
